@@ -106,6 +106,10 @@ func isDirectiveLine(line string) bool {
 	return false
 }
 
+func isIndentedLine(line string) bool {
+	return strings.HasPrefix(line, " ") || strings.HasPrefix(line, "\t")
+}
+
 func findCommentBlockFolds(content string) []protocol.FoldingRange {
 	lines := strings.Split(content, "\n")
 	var ranges []protocol.FoldingRange
@@ -121,10 +125,12 @@ func findCommentBlockFolds(content string) []protocol.FoldingRange {
 
 		startLine := i
 		endLine := i
+		// the comment lines of an entry (indented) and top-level comments are different blocks
+		indented := isIndentedLine(lines[i])
 
 		for j := i + 1; j < len(lines); j++ {
 			nextLine := strings.TrimSpace(lines[j])
-			if strings.HasPrefix(nextLine, ";") || strings.HasPrefix(nextLine, "#") {
+			if (strings.HasPrefix(nextLine, ";") || strings.HasPrefix(nextLine, "#")) && isIndentedLine(lines[j]) == indented {
 				endLine = j
 			} else {
 				break
